@@ -457,6 +457,8 @@ pub fn run(ctx: &mut Ctx) {
             ctx.sample(|| json!({"dag": d.describe(), "ids": &POOL[..n], "roots": n}));
         }
     }
+    // ---- sequences of ontologies built one after the other at the same address
+    super::common::ontology_sequences(ctx, "builder", Mode::Minimal, &mut super::common::obs_oracle(Mode::Minimal));
     // ---- 6. (last, because of the garbage it leaves in the allocator) one very large ontology: 70 000 terms in heap shape (term k is_a term k/2), supplied in
     // ascending order and in an order that interleaves the two halves; beyond every 16-bit table size
     {
